@@ -190,3 +190,42 @@ Proof. vm_compute. split; reflexivity. Qed.
 Example ex_gate : macro_emits LOG_DEBUG INFO = false /\ macro_emits LOG_INFO INFO = true /\
                   macro_emits LOG_WARN FATAL = true.
 Proof. vm_compute. repeat split. Qed.
+
+(* ---- formatSI / formatIEC ------------------------------------------------------------------ *)
+(* Full statement (property text): forall n, 0 <= n < 2^63 -> length (formatSI n) <= 5 /\
+   length (formatIEC n) <= 6 /\ rendered value within rounding error of n.
+   formatSI / formatIEC here are exact integer-arithmetic models of the binary64 computation
+   (int64 -> double round-to-nearest-even, IEEE division by the unit, correctly rounded %.kf);
+   the ladders are regenerated from the source.  The model's arithmetic is NOT validated against
+   Flocq: its agreement with the hardware and glibc is established by the correspondence harness
+   only (every rung bound +-3, dense random n), and the label in docs/C17.md says so. *)
+
+(* F-9: the faithful model falsifies the width claim of formatSI *)
+Theorem C17_si_width_refuted : exists n, 0 <= n < 2 ^ 63 /\ ~ (length (formatSI n) <= 5)%nat.
+Proof. exists 99949999999999992. exact si_width_witness. Qed.
+Print Assumptions C17_si_width_refuted.
+
+(* What is proved: the plain rung for all n (below 1000 / 1024 the text is the decimal numeral),
+   and the width at BOTH ENDS of every rung of the regenerated ladders (last n below and first n
+   at each bound, 0 and 2^63-1), computed in the exact model; the only failing end is
+   n = 99949999999999999 (F-9).  MISSING for the full theorem on the remaining n: the per-rung
+   monotonicity of the rendered value in n (monotonicity of round-to-nearest through to_double,
+   div_double, fixed_scaled) and the validation of these three functions against Flocq's
+   binary64. *)
+Theorem C17_si_width_partial :
+  (forall n, 0 <= n < 1000 -> formatSI n = convert n /\ (length (formatSI n) <= 3)%nat) /\
+  forallb si_end_ok (rung_starts si_ladder) = true /\
+  (length (formatSI (2 ^ 63 - 1)) <=? 5)%nat = true /\ (length (formatSI 0) <=? 5)%nat = true.
+Proof. exact (conj formatSI_small si_rung_ends). Qed.
+Print Assumptions C17_si_width_partial.
+
+Theorem C17_iec_width_partial :
+  (forall n, 0 <= n < 1024 -> formatIEC n = convert n /\ (length (formatIEC n) <= 4)%nat) /\
+  forallb iec_end_ok (rung_starts iec_ladder) = true /\
+  (length (formatIEC (2 ^ 63 - 1)) <=? 6)%nat = true /\ (length (formatIEC 0) <=? 6)%nat = true.
+Proof. exact (conj formatIEC_small iec_rung_ends). Qed.
+Print Assumptions C17_iec_width_partial.
+
+Example ex_si : formatSI 12345 = [x31; x32; x2e; x33; x6b] /\ formatIEC 1048064 = [x31; x2e; x30; x30; x4d; x69] /\
+                length (rung_starts si_ladder) = 16%nat /\ length (rung_starts iec_ladder) = 17%nat.
+Proof. vm_compute. repeat split. Qed.
